@@ -17,7 +17,7 @@ RULE = ("(a) every document of a reference-heavy family and the repository's bas
         "scheduling: under the VSet loader every iterated set of >=2 elements is re-ordered (all permutations up to 4 elements, "
         "adjacent swaps + reversal + rotation above), one deviation at a time (thorough: also pairs), every byte difference "
         "confirmed with real hash seeds before it is reported; (c) all permutations of components.schemas (<=4 names permuted) "
-        "and paths (<=3) of every family document that generates without diagnostics; the family includes unions with repeated members after flattening, component unions with an inline member before a forward reference, one model as body under three media types, siblings re-declaring an inherited property; oracle: byte-identical trees; the same enum class under another value order, class names and literal values differing only in case, children promoting several inherited properties, 3.0 nullable wrappers around forward references")
+        "and paths (<=3) of every family document that generates without diagnostics; the family includes unions with repeated members after flattening, component unions with an inline member before a forward reference, one model as body under three media types, siblings re-declaring an inherited property; oracle: byte-identical trees; the same enum class under another value order (string and integer members) or described differently at each use, class names and literal values differing only in case, children promoting several inherited properties, 3.0 nullable wrappers around forward references")
 FLOOR = 0.5
 CASE_LIMIT = 600
 ASSUMPTIONS = ["VSet models hash order as a function of the set's contents; a model-level difference is only a candidate until two real interpreters reproduce it",
@@ -127,6 +127,17 @@ def family():
         "Pet": obj(status_code={"type": "string", "enum": ["ok", "sick", "gone"]}, name={"type": "string"}),
         "PetStatus": obj(code={"type": "string", "enum": ["gone", "ok", "sick"]}),
         "Alpha": {"type": "string", "title": "Level", "enum": ["lo", "mid", "hi"]}, "Beta": obj(l={"type": "string", "title": "Level", "enum": ["hi", "lo", "mid"]})})
+    # ... the same with integer members
+    F["same-int-enum-class-other-order"] = gen.base_doc({
+        "User": obj(role_type={"type": "integer", "enum": [1, 2, 3]}, name={"type": "string"}),
+        "UserRole": obj(type={"type": "integer", "enum": [3, 2, 1]})})
+    # two inline enums that resolve to ONE class (same members, same order) but are described differently: each use keeps its own words
+    F["same-enum-class-described"] = gen.base_doc({
+        "User": obj(role_type={"type": "string", "enum": ["admin", "guest"], "description": "the role of the user", "example": "admin"}, name={"type": "string"}),
+        "UserRole": obj(type={"type": "string", "enum": ["admin", "guest"], "description": "a role as such", "example": "guest", "default": "guest"}),
+        "Team": obj(lead_level={"type": "integer", "enum": [1, 2], "description": "level of the lead"}), "TeamLead": obj(level={"type": "integer", "enum": [1, 2], "description": "a level"})},
+        paths={"/u": {"get": {"operationId": "getU", "parameters": [{"name": "role_type", "in": "query", "description": "filter by role", "schema": {"type": "string", "title": "UserRoleType", "enum": ["admin", "guest"]}}],
+                              "responses": jr("User")}}})
     # class names that differ only in case, in different modules
     F["case-twin-class-names"] = gen.base_doc({
         "FileName": obj(a={"type": "string"}), "Filename": obj(b={"type": "string"}), "UserName": obj(c={"type": "string"}), "Username": obj(d={"type": "string"}),
